@@ -112,8 +112,11 @@ def parseExp (cs : List Char) : Option (Int × List Char) :=
       let (ds, rest) := takeDigits rest
       if ds.isEmpty then none
       else
-        let v := digitsToNat (ds.take 7)            -- more than 7 digits: certainly out of range
-        let v := if ds.length > 7 then 10000000 else v
+        -- the exponent's VALUE counts: leading zeros are harmless ("1e00000001" is 10); more than 7
+        -- significant digits are certainly out of range
+        let sig := ds.dropWhile (· == '0')
+        let v := digitsToNat (sig.take 7)
+        let v := if sig.length > 7 then 10000000 else v
         some (if neg then -(v : Int) else (v : Int), rest)
     else none
   | [] => none
